@@ -45,6 +45,11 @@ type Stats struct {
 	Samples []json.RawMessage   `json:"samples"`
 	// Inconclusive lists reasons why (part of) the run could not decide.
 	Inconclusive []string `json:"inconclusive,omitempty"`
+	// MaxCaseCPUms is the CPU time of the most expensive single case (the
+	// per-case budget of the watchdog must be far above it).
+	MaxCaseCPUms int64  `json:"max_case_cpu_ms"`
+	MaxCaseKind  string `json:"max_case_kind,omitempty"`
+	MaxCaseIdx   int64  `json:"max_case_idx,omitempty"`
 }
 
 // NewStats returns an empty statistics value.
@@ -112,6 +117,9 @@ func (s *Stats) Merge(t *Stats, maxSamples int) {
 		}
 	}
 	s.Inconclusive = append(s.Inconclusive, t.Inconclusive...)
+	if t.MaxCaseCPUms > s.MaxCaseCPUms {
+		s.MaxCaseCPUms, s.MaxCaseKind, s.MaxCaseIdx = t.MaxCaseCPUms, t.MaxCaseKind, t.MaxCaseIdx
+	}
 }
 
 // Segment is a contiguous family of cases of one kind.
